@@ -20,9 +20,9 @@ PROPS = {
                 relevant={"pull", "sread", "stats", "adv", "clock", "csub"}),
     "C05": dict(module="Deltio.Props.C05", conc=[("mix", 60, 3000)], trace_kinds={"modify"}, seq=[("deadlines", 300, 12000, 50)], pure=["ext", "tracker"],
                 relevant={"mod", "ssend", "pull", "sread", "stats"}),
-    "C08": dict(module="Deltio.Props.C08", conc=[("mix", 120, 5000)], trace_kinds={"publish", "publish.ids", "post", "post.order", "pull"}, seq=[("data", 200, 8000, 50), ("general", 100, 4000, 40)], pure=[],
+    "C08": dict(module="Deltio.Props.C08", conc=[("mix", 120, 5000), ("pubdel", 150, 4000)], trace_kinds={"publish", "publish.ids", "post", "post.order", "pull"}, seq=[("data", 200, 8000, 50), ("general", 100, 4000, 40)], pure=[],
                 relevant={"pub", "pull", "sread"}),
-    "C09": dict(module="Deltio.Props.C09", push=True, conc=[("mix", 60, 3000)], trace_kinds={"publish", "publish.ids", "pull"}, seq=[("general", 200, 8000, 40), ("data", 100, 4000, 50)], pure=[],
+    "C09": dict(module="Deltio.Props.C09", push=True, conc=[("mix", 60, 3000), ("pubdel", 200, 5000)], trace_kinds={"publish", "publish.ids", "pull"}, seq=[("general", 200, 8000, 40), ("data", 100, 4000, 50)], pure=[],
                 relevant={"pub", "pull", "sread"}),
     "C10": dict(module="Deltio.Props.C10", p1=True, conc=[("namerace", 600, 20000)], trace_kinds={"attach", "remove", "delete", "delete.begin", "delete.end"}, seq=[("namespace", 300, 12000, 50)], pure=[],
                 relevant={"ctopic", "gtopic", "dtopic", "csub", "gsub", "dsub", "pub", "pull", "ack", "mod", "lsubs", "ltopics", "ltsubs"}),
@@ -30,11 +30,11 @@ PROPS = {
                 relevant={"dsub", "dtopic", "ltsubs", "wtsubs", "gsub", "lsubs", "wsubs", "stats", "ctopic", "csub", "pub", "pull"}),
     "C13": dict(module="Deltio.Props.C13", trace_kinds={"attach", "remove"}, seq=[("namespace", 250, 10000, 50)], pure=["tokens"],
                 relevant={"ltopics", "lsubs", "ltsubs", "wtopics", "wsubs", "wtsubs"}),
-    "C15": dict(module="Deltio.Props.C15", conc=[("mix", 60, 3000), ("wake", 60, 3000)], trace_kinds={"pull"}, seq=[("batches", 80, 3000, 40), ("data", 100, 4000, 50), ("bigbacklog", 2, 12, 0)], pure=[],
+    "C15": dict(module="Deltio.Props.C15", conc=[("mix", 60, 3000), ("wake", 60, 3000)], trace_kinds={"pull", "pull.count"}, seq=[("batches", 80, 3000, 40), ("data", 100, 4000, 50), ("bigbacklog", 2, 12, 0)], pure=[],
                 relevant={"pull", "sread", "sopen"}),
     "C17": dict(module="Deltio.Props.C17", trace_kinds=set(), seq=[("malformed", 300, 12000, 50)], pure=["names", "tokens", "ext", "ackids"],
                 relevant=ALL_SEQ_OPS),
-    "C06": dict(module="Deltio.Props.C06", seq=[], pure=[], conc=[("race", 1500, 40000), ("wake", 400, 10000), ("swallow", 300, 8000), ("mix", 100, 4000)],
+    "C06": dict(module="Deltio.Props.C06", seq=[], pure=[], conc=[("race", 1500, 40000), ("wake", 400, 10000), ("swallow", 300, 8000), ("wakecancel", 300, 6000), ("mix", 100, 4000)],
                 relevant={"pull", "probe", "sread", "stats"}, trace_kinds={"pull", "post", "modify", "expire"}),
     "C07": dict(module="Deltio.Props.C07", seq=[], pure=[], conc=[("burst", 150, 4000), ("delete", 150, 4000), ("cancel", 150, 4000), ("namerace", 200, 5000)],
                 relevant=ALL_SEQ_OPS, trace_kinds={"delete.begin", "delete.end", "remove"}),
@@ -112,6 +112,14 @@ def mismatch_kind(trace, idx, verdict=""):
     produced that state (the closest earlier non-state event of the same actor). Publish / post
     mismatches are split by what deviates (ids, fan-out set, order), so that each goes to the
     property that is about it."""
+    if "MISMATCH pull model=[" in verdict:
+        import re
+        m = re.search(r"model=\[(.*?)\] impl=\[(.*?)\]", verdict)
+        if m:
+            a, b = [[x for x in g.split(" | ")[0].split(",") if x and x != "-"] for g in (m.group(1), m.group(2))]
+            k = min(len(a), len(b))
+            if a[:k] == b[:k] and len(a) != len(b):
+                return "pull.count"      # same deliveries, a different number of them: C15's business
     if "posts-out-of-order" in verdict:
         return "post.order"
     if "publish fan-out set" in verdict:
@@ -374,12 +382,18 @@ class Check:
         table, _, _ = run_model("pure", "\n".join("push.accepts %d" % st for st in range(100, 600)) + "\n")
         accepts = {100 + i: v == "1" for i, v in enumerate(table)}
         scen = [gen_push.scenario(rng.fork("push/%d" % i), self.tier) for i in range(1 if self.tier == "quick" else 4)]
+        if self.prop == "C14":
+            scen.append(gen_push.slow_sibling(rng))
         if self.tier != "quick" and self.prop == "C14":
             scen.append(gen_push.slow_102(rng))
         nd = 0
-        for lines, meta in scen:
-            p = subprocess.run([DVH, "push", "-"], input="\n".join(lines) + "\n", env=ENV, stdout=subprocess.PIPE,
-                               stderr=subprocess.PIPE, text=True, timeout=600)
+        from concurrent.futures import ThreadPoolExecutor
+        def run_one(sc):
+            return subprocess.run([DVH, "push", "-"], input="\n".join(sc[0]) + "\n", env=ENV, stdout=subprocess.PIPE,
+                                  stderr=subprocess.PIPE, text=True, timeout=600)
+        with ThreadPoolExecutor(max_workers=len(scen)) as ex:
+            procs = list(ex.map(run_one, scen))
+        for (lines, meta), p in zip(scen, procs):
             answers = p.stdout.split("\n")
             self.evaluations += len(meta["msgs"])
             self.traces += 1
